@@ -74,6 +74,9 @@ func MarshalFrom(dst *anypb.Any, src proto.Message, opts proto.MarshalOptions) e
 // then using the provided fileResolver (defaults to protoregistry.GlobalFiles)
 // with dynamicpb.
 func Unpack(any *anypb.Any, fileResolver protodesc.Resolver, typeResolver protoregistry.MessageTypeResolver) (proto.Message, error) {
+	if any == nil {
+		return nil, protoimpl.X.NewError("invalid nil Any")
+	}
 	if typeResolver == nil {
 		typeResolver = protoregistry.GlobalTypes
 	}
